@@ -50,6 +50,18 @@ def run(tier):
                            depth=120)
     v.distinct += distinct_count(sch)
     conform(v, wd, "race-3r-sim", g3, sch, invs=RINVS)
+    # situations random schedules rarely reach: a sync whose add_version is rejected twice; one
+    # rejected after one of its own versions was accepted (several versions per sync)
+    gs = consts(Replicas={"r1", "r2", "r3"}, Vals={"a", "b", "c"}, Props={"p"}, Racing=True,
+                MaxPending=1, MaxLong=0, MaxEdits=0, MaxChain=8)
+    w = gen_situations(wd, "sit-reject2", gs, "reject2", limit=60 if thorough else 16, timeout=600)
+    v.distinct += distinct_count(w)
+    conform(v, wd, "sit-reject2", gs, w, invs=RINVS)
+    gm = consts(Replicas={"r1", "r2"}, Props={"p", "q"}, Racing=True, MaxPending=2, MaxLong=2,
+                MaxEdits=0, MaxChain=8, BigVals={"a", "b"})
+    w = gen_situations(wd, "sit-rejectmid", gm, "rejectmid", limit=60 if thorough else 16, timeout=600)
+    v.distinct += distinct_count(w)
+    conform(v, wd, "sit-rejectmid", gm, w, invs=RINVS)
     if thorough:
         conform(v, wd, "race-3r-sqlite", g3, sch[:300], invs=RINVS, storage="sqlite")
         g3b = dict(g3, BigVals=g3["Vals"])
